@@ -275,3 +275,11 @@ def rule_awaits(ctx):
 
 
 RULES.append(("C14.i", "await inventory: only futures whose completion rule is covered are polled on the delivery path", rule_awaits))
+
+
+def rule_mustpass(ctx):
+    from . import mustpass
+    mustpass.check(ctx, ['requestor-send-broadcasts'])
+
+
+RULES.append(("C14.j", "must-pass-through: no path around the effects this property rests on (added fast paths / early returns)", rule_mustpass))
